@@ -134,6 +134,60 @@ def specChain (priv : Bool) : ExtKey Curve.Pt → List Nat → Result (ExtKey Cu
     | .invalid => .invalid
     | .failure => .failure
 
+/-- a text accessor's answer: hex of the text, `!Tag` for an exception -/
+def showText : Option (Except Err Bytes) → String
+  | none => "unsupported"
+  | some (.ok b) => hx b
+  | some (.error e) => "!" ++ e.tag
+
+/-- `node.as_text(as_private=…)` — the class attribute `as_text = hwif` of the node's own class -/
+def asText (net : Pycoin.Addr.Network) (n : Node) (p : Bool) : Option (Except Err Bytes) := hwif net n p
+
+/-- `repr(node)`: `as_text(as_private=False)` inside `<…>`, prefixed by `private_for ` when there is a secret -/
+def reprText (net : Pycoin.Addr.Network) (n : Node) : Option (Except Err Bytes) :=
+  match asText net n false with
+  | none => none
+  | some (.error e) => some (.error e)
+  | some (.ok t) =>
+    let pre := match n.secretExponent with
+      | some se => if se ≠ 0 then "private_for <".toUTF8.toList else "<".toUTF8.toList
+      | none => "<".toUTF8.toList
+    some (.ok (pre ++ t ++ ">".toUTF8.toList))
+
+/-- `Key.wif()`: `None` for a public node -/
+def wifText (net : Pycoin.Addr.Network) (n : Node) : String :=
+  match n.secretExponent with
+  | none => "none"
+  | some se =>
+    match toBytes32 se with
+    | .error e => "!" ++ e.tag
+    | .ok b =>
+      if !net.b58DoubleSha then "unsupported" else
+      match net.outWif with
+      | none => "!TypeError"
+      | some p =>
+        match Base58.b2aHashed (p ++ b ++ [1]) with
+        | .ok t => hx t
+        | .error _ => "!EncodingError"
+
+/-- an answer of a family history: the node and what its text accessors say -/
+def showFamItem (net : Pycoin.Addr.Network) : Except Err Node → String
+  | .error e => "!" ++ e.tag
+  | .ok n => showNode n ++ "|" ++ showText (asText net n n.secretExponent.isSome) ++ "|" ++ showText (reprText net n)
+
+def parseFStep? (s : String) : Option FStep :=
+  match s.toList with
+  | 'c' :: r => (parseNat? (String.ofList r)).map .pubcopy
+  | 's' :: r =>
+    match (String.ofList r).splitOn "/" with
+    | [o, i, h, p] => do pure (.subkey (← parseNat? o) (← parseInt? i) (← parseBool? h) (← parseOptBool? p))
+    | _ => none
+  | 'p' :: r =>
+    match (String.ofList r).splitOn "/" with
+    | [o, t] => do pure (.path (← parseNat? o) (← textOf? t))
+    | _ => none
+  | _ => none
+
 def withNode (tok : String) (f : Node → String) : Option String :=
   match parseNode? tok with
   | none => none
@@ -186,7 +240,7 @@ def handle1 : Handler := fun op args =>
     let net ← findNet? net; let k ← parseKind? k; let text ← parseHex? text
     match parseBip gen net k text with
     | .ok none => some "none"
-    | .ok (some n) => some ("ok " ++ showNode n)
+    | .ok (some n) => some ("ok " ++ showNode n ++ " " ++ showText (asText net n n.secretExponent.isSome))
     | .error e => some ("err " ++ e.tag)
   | "subpaths", [text] => do
     let text ← textOf? text
@@ -232,6 +286,17 @@ def handle1 : Handler := fun op args =>
         | .ok (some t) => "ok " ++ hx t.toUTF8.toList
         | .ok none => "none"
         | .error e => "err " ++ e.tag
+  -- a history over the family of objects derived from one root (public copies, shared children, one cache each)
+  | "bip32_fam", [net, n, steps] => do
+    let net ← findNet? net
+    let steps ← parseList? parseFStep? steps
+    withNode n fun n => "ok " ++ ";".intercalate ((famRun gen fuel (Fam.root n) steps).map (showFamItem net))
+  -- every text accessor of one node: hwif / as_text, private and public; repr; wif
+  | "bip32_texts", [net, n] => do
+    let net ← findNet? net
+    withNode n fun n =>
+      "ok " ++ "|".intercalate [showText (hwif net n true), showText (hwif net n false), showText (asText net n true),
+        showText (asText net n false), showText (reprText net n), wifText net n]
   | "bip32_spec", [net, k, seed, idxs, pubFirst] => do
     let net ← findNet? net
     let k ← parseKind? k; let seed ← parseHex? seed; let idxs ← parseList? parseNat? idxs; let pubFirst ← parseBool? pubFirst
